@@ -189,7 +189,7 @@ struct Gen {
 
 	void randomsFor(Op& op) {
 		if (!has(CAP_UTILITY) || !sh.usesUtility) return;
-		const int n = (is("C10") || is("C11")) && rng.chance(0.4) ? rng.range(2, 3) : 1;   // the model attributes one number to every draw of an operation
+		const int n = (is("C10") || is("C11") || is("C04")) && rng.chance(0.4) ? rng.range(2, 3) : 1;   // the model attributes one number to every draw of an operation (C04 has no clause that reads the draws: a second resolution of the same region then gives another answer)
 		for (int k = 0; k < n; ++k) {
 			float v;
 			switch (rng.weighted({50, 10, 14, 10, 8, 8})) {
@@ -308,6 +308,28 @@ RunPlan generate(uint64_t seed, const std::string& lens, const std::string& shap
 			{ Op o; o.kind = OP_PLAN_APPEND; o.a = int16_t(sh.st[size_t(pr.first)].region); o.b = K_CHANGE; o.c = int16_t(b); o.d = int16_t(d); push(o); }
 			selfSucceed(a);
 			selfSucceed(b);
+		}
+	}
+	// directed prefix (C04): a round that is approved although one of its entry guards asks for something else, followed by a round that is vetoed; in between a
+	// scheduling request moves what a second resolution of the approved request would pick. Nothing of the approved round may be done over.
+	if (is("C04") && p.wp.guardRequests && r.chance(0.1)) {
+		const Shape& sh = g.sh;
+		std::vector<int> cands;
+		for (int x = 1; x < sh.n; ++x) if (sh.isCompo(x) && !sh.st[size_t(x)].headless && sh.st[size_t(x)].strategy == 1 && sh.st[size_t(x)].prong != 0 && sh.st[size_t(x)].width >= 2 && sh.isCompo(sh.st[size_t(x)].parent)) cands.push_back(x);
+		if (!cands.empty()) {
+			const int reg = cands[r.below(uint32_t(cands.size()))];
+			int t = -1; for (int x = 1; x < sh.n && t < 0; ++x) if (!sh.inSubtree(x, reg) && !sh.inSubtree(reg, x) && !sh.st[size_t(x)].headless && sh.st[size_t(x)].parent == sh.st[size_t(reg)].parent) t = x;
+			if (t >= 0) {
+				const int other = sh.kids[size_t(reg)][1];
+				{ Op o; o.kind = OP_REQUEST; o.a = K_CHANGE; o.b = int16_t(reg); g.decorate(o); o.card.clear(); p.ops.push_back(o); }
+				{ Op u; u.kind = OP_UPDATE; g.decorate(u); u.card.clear();
+				  CardEntry e1; e1.state = int16_t(reg); e1.method = M_ENTRY_GUARD; e1.occurrence = -1;
+				  Action a1; a1.type = A_REQUEST; a1.kind = K_SCHEDULE; a1.a = int16_t(other); e1.actions.push_back(a1);
+				  Action a2; a2.type = A_REQUEST; a2.kind = K_CHANGE; a2.a = int16_t(t); e1.actions.push_back(a2);
+				  u.card.push_back(e1);
+				  CardEntry e2; e2.state = int16_t(t); e2.method = M_ENTRY_GUARD; e2.occurrence = -1; Action a3; a3.type = A_CANCEL; e2.actions.push_back(a3); u.card.push_back(e2);
+				  p.ops.push_back(u); }
+			}
 		}
 	}
 	for (int k = 0; k < nOps; ++k) {
